@@ -511,8 +511,8 @@ compile_representatives.last = None
 
 def ord_skips_def(order=None, ident='ord_skips'):
     """overlapping callback-less skips of different priority with a token in between"""
-    return Def(ident, skips=[R('//[a-z ]*', prio=4), R('////[a-z ]*', prio=8), R(' +')],
-               variants=[Var('Doc', [R('///[a-z ]*', prio=6)]), Var('Z', [T('zz')])], combined_logos_attr=True, logos_items_order=order)
+    return Def(ident, skips=[R('//[a-z/]*', prio=4), R('////[a-z/]*', prio=8), R(' +')],
+               variants=[Var('Doc', [R('///[a-z/]*', prio=6)]), Var('Z', [T('zz')])], combined_logos_attr=True, logos_items_order=order)
 
 
 def ord_items_def(order=None, ident='ord_items'):
